@@ -586,6 +586,13 @@ func protoMismatch(decl, def *llread.Func) string {
 		if a.Kind != b.Kind || (a.Kind == llread.TInt && a.Bits != b.Bits) {
 			return fmt.Sprintf("parameter %d: declared %s, C side %s", i, a, b)
 		}
+		// a narrow integer is widened to a register by the caller: stating the opposite extension of
+		// what the C function was compiled for hands over another value (wahr as 255)
+		if a.Kind == llread.TInt && a.Bits < 32 && i < len(decl.SignExt) && i < len(def.SignExt) {
+			if (decl.SignExt[i] && def.ZeroExt[i]) || (decl.ZeroExt[i] && def.SignExt[i]) {
+				return fmt.Sprintf("parameter %d: declared with the opposite integer extension (signext/zeroext) of the C function", i)
+			}
+		}
 	}
 	ra, rb := decl.Type.Ret, def.Type.Ret
 	if ra.Kind != rb.Kind || (ra.Kind == llread.TInt && ra.Bits != rb.Bits) {
